@@ -429,11 +429,12 @@ def through_the_protocol(ctx: Ctx) -> None:
               (" I --- 18:000730 --:------ 18:000730 30C9 003 0007D0", None),
               (" I --- 18:000730 63:262142 --:------ 1FC9 006 0030C9489A21", None)]
     results = {}
+    slow = {"on": False}
 
     async def main(listed, blocked):
         loop = asyncio.get_running_loop()
         got = []
-        pp = PortProtocol(got.append, enforce_include_list=bool(listed), exclude_list=blocked, include_list=listed)
+        pp = PortProtocol(got.append, disable_qos=False, enforce_include_list=bool(listed), exclude_list=blocked, include_list=listed)
 
         class Tr:
             def get_extra_info(self, k, d=None):
@@ -451,7 +452,7 @@ def through_the_protocol(ctx: Ctx) -> None:
                 loop.call_later(0.005, lambda: pp.pkt_received(Packet(_dt.datetime.now(), "000 " + echo)))
                 rp = next((r for fr, r in frames if fr == frame), None)
                 if rp:
-                    loop.call_later(0.01, lambda: pp.pkt_received(Packet(_dt.datetime.now(), "045 " + rp)))
+                    loop.call_later(0.15 if slow["on"] else 0.01, lambda: pp.pkt_received(Packet(_dt.datetime.now(), "045 " + rp)))
                 del f
 
         pp.connection_made(Tr(), ramses=True)
@@ -462,6 +463,24 @@ def through_the_protocol(ctx: Ctx) -> None:
                 results[(tuple(listed), tuple(blocked), frame)] = ("ok", str(pkt))
             except (exc.ProtocolError, TimeoutError) as err:
                 results[(tuple(listed), tuple(blocked), frame)] = ("failed", f"{type(err).__name__}: {err}"[:160])
+        # the reply is recognised as the reply of the command IN FLIGHT even when an identical frame (another Command object, e.g. a second poller's)
+        # waits in the buffer behind it and gives up first
+        if not listed and not blocked:
+            rq = "RQ --- 18:000730 01:145038 --:------ 0004 002 0200"
+            rpf = f"RP --- {CTL} {GW} --:------ 0004 022 02004C6976696E6720526F6F6D000000000000000000"
+            slow["on"] = True
+            frames.append((rq, rpf))
+            a = asyncio.ensure_future(pp.send_cmd(Command(rq), qos=QosParams(wait_for_reply=True, timeout=3, max_retries=0)))
+            await asyncio.sleep(0.02)
+            b = asyncio.ensure_future(pp.send_cmd(Command(rq), qos=QosParams(wait_for_reply=True, timeout=0.1, max_retries=0)))
+            for name, fut in (("queued-duplicate", b), ("in-flight", a)):
+                try:
+                    pkt = await asyncio.wait_for(fut, 8)
+                    results[((), (), f"{rq} [{name}]")] = ("ok", str(pkt))
+                except (exc.ProtocolError, TimeoutError) as err:
+                    results[((), (), f"{rq} [{name}]")] = ("failed", f"{type(err).__name__}: {err}"[:160])
+            frames.pop()
+            slow["on"] = False
         try:
             pp.connection_lost(None)
         except AssertionError:       # the FSM's own consistency check on being torn down right after a send: C09's subject, not this one's
@@ -479,6 +498,13 @@ def through_the_protocol(ctx: Ctx) -> None:
             loop.close()
     for (listed, blocked, frame), (how, what) in results.items():
         ctx.case(("through-protocol", listed, blocked, frame), True, "echo-through-the-real-protocol")
+        if frame.endswith("[queued-duplicate]"):
+            continue          # it gives up after 0.1 s by design
+        if frame.endswith("[in-flight]"):
+            if how != "ok" or " 0004 022 " not in what:
+                ctx.violation("reply-not-recognised:identical-frame-queued-behind", f"{frame[:-12]}: its reply arrived 0.15 s after it was sent (caller's timeout 3 s) while an identical frame, queued "
+                              f"behind it by another caller, had given up after 0.1 s; send_cmd ended with {what}", {"frame": frame, "outcome": what}, "schedule")
+            continue
         if how != "ok":
             ctx.violation("echo-not-recognised:through-the-protocol" + (":placeholder-in-the-echo" if HGI in frame[16:] or frame[7:16] != HGI else ""),
                           f"{frame} was written and echoed by the gateway ({GW}), yet send_cmd ended with {what}",
